@@ -34,12 +34,42 @@ structure Conserved (g : Game) : Prop where
 /-- ① the invariant holds in the freshly dealt hand -/
 theorem C02_inv_root {h0 h1 : Nat} (hv : ValidDeal h0 h1) : GameInv (root h0 h1) := inv_root hv
 
-/-- `Game::root()` is `base().deal().post()`: two blinds through `act` from the base state -/
-theorem C02_root_posted (h0 h1 : Nat) : post? (base h0 h1) = some (root h0 h1) := by
+/-! `Game::root()` is `base().deal().post()`: two blinds through `act` from the base state -/
+
+theorem street_base (s0 s1 : Seat) (p : Int) (d t : Nat) :
+    street { s0 := s0, s1 := s1, pot := p, board := 0, dealer := d, ticker := t } = 0 := by
+  unfold street; simp only [RP.Bits.popW_zero]; rw [streetOf_eq]; rfl
+
+/-- the state between the two blinds -/
+def halfPosted (a b : Nat) : Game :=
+  { s0 := freshSeat a,
+    s1 := { state := Status.betting, stack := STACK - SB, stake := SB, spent := SB, hole := b },
+    pot := SB, board := 0, dealer := 0, ticker := 2 }
+
+theorem C02_root_posted (a b : Nat) : post? (base a b) = some (root a b) := by
   have hc := consts_ok
-  have e1 : actorIdx (base h0 h1) = 1 := by
-    unfold actorIdx base; simp [baseDealer_eq, baseTicker_eq, n_eq]
-  sorry
+  have hm1 : min SB STACK = SB := by omega
+  have hm2 : min BB STACK = BB := by omega
+  have e1 : step? (base a b) (.blind (toPost (base a b))) = some (halfPosted a b) := by
+    have hx : ¬ STACK - SB = 0 := by omega
+    have hp : (0:Int) < SB + BB := by omega
+    simp [step?, isAllowed, mustStop, mustPost, betOk, Action.chips, act, bet, nextPlayer, advance,
+      isEveryoneAlright, isEveryoneCalling, isEveryoneTouched, isEveryoneMatched, isEveryoneFolding,
+      isEveryoneShoving, effectiveStake, toPost, actor, actorIdx, base, freshSeat, Seat.bet, halfPosted,
+      baseDealer_eq, baseTicker_eq, n_eq, touchedPref_eq, street_base, hm1, hx, hp]
+    omega
+  have e2 : toPost (halfPosted a b) = BB := by
+    simp [toPost, halfPosted, actor, actorIdx, n_eq, freshSeat, hm2]
+  have e3 : step? (halfPosted a b) (.blind BB) = some (root a b) := by
+    have hx : ¬ STACK - BB = 0 := by omega
+    have hp : SB < SB + BB := by omega
+    simp [step?, isAllowed, mustStop, mustPost, betOk, Action.chips, act, bet, nextPlayer, advance,
+      isEveryoneAlright, isEveryoneCalling, isEveryoneTouched, isEveryoneMatched, isEveryoneFolding,
+      isEveryoneShoving, effectiveStake, actor, actorIdx, root, freshSeat, Seat.bet, halfPosted,
+      baseDealer_eq, baseTicker_eq, n_eq, touchedPref_eq, street_base, hx, hp]
+    omega
+  unfold post?
+  rw [e1]; simp only [Option.bind]; rw [e2, e3]
 
 /-- ① the invariant is preserved by every accepted action -/
 theorem C02_inv_step {g g' : Game} {a : Action} (h : GameInv g) (hs : step? g a = some g') :
@@ -114,6 +144,79 @@ theorem C02_payout {g : Game} (h : GameInv g) (hs : mustStop g = true) (strength
         let b := strength (g.s1.hole ||| g.board)
         (b < a → r0 = g.pot ∧ r1 = 0) ∧ (a < b → r0 = 0 ∧ r1 = g.pot) ∧
         (a = b → r0 = g.s0.spent ∧ r1 = g.s1.spent ∧ r0 = r1)) := by
-  sorry
+  obtain ⟨hp, hpot⟩ := seats_view h
+  have hc := consts_ok
+  have hsp0 : 0 < g.s0.spent := by have := hp.blindA; omega
+  have hsp1 : 0 < g.s1.spent := by have := hp.blindO; omega
+  have hset : settlements strength g = some (RP.Showdown.settle
+      [⟨g.s0.spent, g.s0.state, strength (g.s0.hole ||| g.board), 0⟩,
+       ⟨g.s1.spent, g.s1.state, strength (g.s1.hole ||| g.board), 0⟩]) := by
+    unfold settlements ledger entry; simp [hs]
+  rcases terminal_view h hs with ⟨f0, n1, hlt⟩ | ⟨f1, n0, hlt⟩ | ⟨_, n0, n1, heq⟩
+  · refine ⟨0, g.s0.spent + g.s1.spent, ?_, ?_, by omega, by omega, by omega, by omega, ?_, ?_, ?_⟩
+    · unfold rewards; rw [hset, f0, settle_fold0 _ _ _ _ _ n1 (by omega) hlt]; rfl
+    · unfold pnls; rw [hset, f0, settle_fold0 _ _ _ _ _ n1 (by omega) hlt]; simp
+    · intro _; exact ⟨rfl, hpot.symm⟩
+    · intro f1; exact absurd f1 n1
+    · intro n0; exact absurd f0 n0
+  · refine ⟨g.s0.spent + g.s1.spent, 0, ?_, ?_, by omega, by omega, by omega, by omega, ?_, ?_, ?_⟩
+    · unfold rewards; rw [hset, f1, settle_fold1 _ _ _ _ _ n0 (by omega) hlt]; rfl
+    · unfold pnls; rw [hset, f1, settle_fold1 _ _ _ _ _ n0 (by omega) hlt]; simp
+    · intro f0; exact absurd f0 n0
+    · intro _; exact ⟨rfl, hpot.symm⟩
+    · intro _ n1; exact absurd f1 n1
+  · rw [← heq] at hset
+    rcases Nat.lt_trichotomy (strength (g.s1.hole ||| g.board)) (strength (g.s0.hole ||| g.board)) with hgt | he | hlt
+    · refine ⟨g.s0.spent + g.s0.spent, 0, ?_, ?_, by omega, by omega, by omega, by omega, ?_, ?_, ?_⟩
+      · unfold rewards; rw [hset, settle_show_gt _ _ _ _ _ n0 n1 hsp0 hgt]; rfl
+      · unfold pnls; rw [hset, settle_show_gt _ _ _ _ _ n0 n1 hsp0 hgt]; simp; omega
+      · intro f0; exact absurd f0 n0
+      · intro f1; exact absurd f1 n1
+      · intro _ _; refine ⟨fun _ => ⟨by omega, rfl⟩, fun hh => by omega, fun hh => by omega⟩
+    · refine ⟨g.s0.spent, g.s0.spent, ?_, ?_, by omega, by omega, by omega, by omega, ?_, ?_, ?_⟩
+      · unfold rewards; rw [hset, he, settle_show_eq _ _ _ _ n0 n1 hsp0]; rfl
+      · unfold pnls; rw [hset, he, settle_show_eq _ _ _ _ n0 n1 hsp0]; simp; omega
+      · intro f0; exact absurd f0 n0
+      · intro f1; exact absurd f1 n1
+      · intro _ _; refine ⟨fun hh => by omega, fun hh => by omega, fun _ => ⟨rfl, heq, rfl⟩⟩
+    · refine ⟨0, g.s0.spent + g.s0.spent, ?_, ?_, by omega, by omega, by omega, by omega, ?_, ?_, ?_⟩
+      · unfold rewards; rw [hset, settle_show_lt _ _ _ _ _ n0 n1 hsp0 hlt]; rfl
+      · unfold pnls; rw [hset, settle_show_lt _ _ _ _ _ n0 n1 hsp0 hlt]; simp; omega
+      · intro f0; exact absurd f0 n0
+      · intro f1; exact absurd f1 n1
+      · intro _ _; refine ⟨fun hh => by omega, fun _ => ⟨rfl, by omega⟩, fun hh => by omega⟩
+
+/-! ## non-vacuity: a concrete multi-street history (call, check, flop, bet 10, raise to 30, call,
+turn, check, check, river, shove, call) reaches a terminal all-in showdown; the theorems above
+apply to it and the computed payouts are the expected ones -/
+
+/-- holes `2c2d` / `3c3d`, flop `4c4d4h`, turn `5c`, river `6c` -/
+def demoHistory : List Action :=
+  [.call 1, .check, .draw 0x700, .raise 10, .raise 30, .call 20, .draw 0x1000, .check, .check,
+   .draw 0x10000, .shove 68, .shove 68]
+
+theorem demo_deal : ValidDeal 0x3 0x30 := by unfold ValidDeal; decide
+example : (run? (root 0x3 0x30) demoHistory).map (fun g => (turn g, g.pot, g.s0.stack, g.s1.stack, street g)) =
+    some (Turn.terminal, 200, 0, 0, 3) := by decide
+-- the theorems apply to it (their hypotheses are satisfiable)
+example : ∃ g, run? (root 0x3 0x30) demoHistory = some g ∧ Conserved g ∧ mustStop g = true := by
+  cases h : run? (root 0x3 0x30) demoHistory with
+  | none => exact absurd h (by decide)
+  | some g =>
+    refine ⟨g, rfl, C02_history demo_deal h, ?_⟩
+    have : (run? (root 0x3 0x30) demoHistory).map mustStop = some true := by decide
+    rw [h] at this; simpa using this
+-- seat 1 stronger / seat 0 stronger / tie
+example : (run? (root 0x3 0x30) demoHistory).bind (rewards (fun m => if m &&& 0x30 = 0 then 1 else 2)) = some [0, 200] := by decide
+example : (run? (root 0x3 0x30) demoHistory).bind (rewards (fun m => if m &&& 0x30 = 0 then 2 else 1)) = some [200, 0] := by decide
+example : (run? (root 0x3 0x30) demoHistory).bind (rewards (fun _ => 7)) = some [100, 100] := by decide
+-- a fold on the turn: the folder gets nothing
+example : (run? (root 0x3 0x30) [.call 1, .check, .draw 0x700, .raise 10, .call 10, .draw 0x1000, .raise 24, .fold]).bind
+    (pnls (fun _ => 0)) = some [-12, 12] := by decide
+-- the invariant's hypotheses are satisfiable at every node kind: root is a choice node
+example : turn (root 0x3 0x30) = Turn.choice 1 := by decide
+-- a rejected action: no state
+example : step? (root 0x3 0x30) (.raise 2) = none := by decide
+example : step? (root 0x3 0x30) (.raise 3) ≠ none := by decide
 
 end RP.C02
